@@ -300,7 +300,9 @@ RouteBad(U, dl, d, c, owner, borrowed) ==
             ELSE IF ~remote /\ "LOCAL_WORKLOAD" \notin ToSet(r.types) THEN "local-route-not-local-workload"
             ELSE IF ps # {} /\ r.pool # PoolType(Val(U, dl, First(ps))) THEN "route-pool-type"
             ELSE IF ps = {} /\ r.pool # "NONE" THEN "route-pool-type"
-            ELSE IF remote /\ r.sameSubnet # (ps # {} /\ CrossSubnet(Val(U, dl, First(ps))) /\ InLocalSubnet(U, dl, owner)) THEN "same-subnet-flag"
+            \* direct vs tunnel: only meaningful when the pool encapsulates (an unencapsulated route is direct anyway)
+            ELSE IF remote /\ ps # {} /\ PoolType(Val(U, dl, First(ps))) \in {"VXLAN", "IPIP"}
+                    /\ r.sameSubnet # (CrossSubnet(Val(U, dl, First(ps))) /\ InLocalSubnet(U, dl, owner)) THEN "same-subnet-flag"
             ELSE IF remote /\ NodeKey(U, dl, owner) # {} /\ Val(U, dl, First(NodeKey(U, dl, owner))).hasV4
                     /\ r.nodeIp # Val(U, dl, First(NodeKey(U, dl, owner))).addrs THEN "route-stale-node-address"
             ELSE IF borrowed /\ ~r.borrowed THEN "borrowed-flag"
